@@ -521,8 +521,9 @@ def step (cfg : Cfg) (w : World) : Op → World × String
     | some _ => (cloneSlot w s s2, "ok")
   | .disable =>
     -- Drop for AppInitService: pool.disable() = enabled.set(false); inner.clear()
+    -- (the service is owned by the connections' dispatchers too: when it is dropped they are gone)
     ({ w with svcAlive := false, enabled := false,
-              heap := w.heap.filter (fun e => !w.pool.contains e.1), pool := [] }, "ok")
+              heap := w.heap.filter (fun e => !w.pool.contains e.1), pool := [], conns := [] }, "ok")
   | .closeConn c => ({ w with conns := w.conns.filter (· != c) }, "ok")
 
 /-- run a history, collecting one output per operation -/
